@@ -278,6 +278,11 @@ def parseMapOp? (args : List String) : Option (MapOp DKey DVal DKey) :=
   | ["serde", dst] => do
     let (isMap, i) ← parseReg? dst
     if isMap then pure (.serde i) else none
+  -- the same round trip through another serde format (the recorded data-model calls, with a
+  -- `size_hint` behaviour of the deserializer): the crate's code does not look at the format
+  | ["serde", dst, _fmt] => do
+    let (isMap, i) ← parseReg? dst
+    if isMap then pure (.serde i) else none
   | _ => none
 
 def parseSetReg? (s : String) : Option Nat := do
@@ -305,6 +310,7 @@ def parseSetOp? (args : List String) : Option (SetOp DKey DKey) :=
   | ["clone", dst] => (parseSetReg? dst).map .clone_to
   | ["clone_from", dst] => (parseSetReg? dst).map .clone_to
   | ["serde", dst] => (parseSetReg? dst).map .serde
+  | ["serde", dst, _fmt] => (parseSetReg? dst).map .serde
   | ["eq", o] => (parseSetReg? o).map .eq
   | ["from_iter", pulls, xs] => do pure (.from_iter (pulls != "0") (← parseKeys? xs))
   | ["extend", pulls, xs] => do pure (.extend (pulls != "0") (← parseKeys? xs))
